@@ -65,7 +65,8 @@ func (w *World) Serve(q *Req) {
 				q.ev(EvEscaped, 0, 0, q.Escaped)
 			}
 		}()
-		w.F.ServeHTTP(q.W.Writer(q.Flusher), req)
+		q.W.HijackFails = q.Hijacker == 1
+		w.F.ServeHTTP(q.W.WriterFacets(q.Flusher, false, q.Hijacker != 0), req)
 	}()
 	cancel()
 	q.Served = true
@@ -269,4 +270,4 @@ func (q *Req) DescribeProgs() []string {
 
 // OpNames for reports.
 var OpNames = []string{"yield", "writeHeader", "write", "flush", "next", "nextSwallow", "cancel", "mapExtra", "seeExtra", "panic", "echo",
-	"mark", "checkMark", "setHeader", "before", "render", "redirect", "status", "cookie", "seeSvc", "seeHeaders", "mapIface", "seeIface", "invoke", "apply", "seeNamer", "httpError", "setContentType", "setContentLength", "expireCtx", "mapOwnWriter", "seePath", "seeBody", "mapReturnHandler", "mutQuery", "replaceCtx"}
+	"mark", "checkMark", "setHeader", "before", "render", "redirect", "status", "cookie", "seeSvc", "seeHeaders", "mapIface", "seeIface", "invoke", "apply", "seeNamer", "httpError", "hijack", "setContentType", "setContentLength", "expireCtx", "mapOwnWriter", "seePath", "seeBody", "mapReturnHandler", "mutQuery", "replaceCtx"}
